@@ -73,6 +73,9 @@ type Env struct {
 	maxTS   primitive.Timestamp
 	tsEpoch int
 
+	deferredOps []deferred
+	expirePass  bool // the client is running Transaction.Expire itself
+
 	sharedSess []lungo.ISession
 	closing    bool // Engine.Close has been invoked by the plan
 }
